@@ -17,6 +17,8 @@ import (
 	"github.com/kubewharf/kubegateway/pkg/ratelimiter/limiter"
 	"github.com/kubewharf/kubegateway/pkg/ratelimiter/util"
 
+	gatewayfake "github.com/kubewharf/kubegateway/pkg/client/kubernetes/fake"
+
 	"verifharness/bed"
 	"verifharness/vkit"
 )
@@ -53,6 +55,7 @@ func TestCheck(t *testing.T) {
 			"too few rejected reports / schema removals / reports to the second upstream")
 		r.Require(r.Counter("sys_burst_only_changes") >= 100 && r.Counter("sys_burst_only_lowered") >= 40 && r.Counter("sys_token_bucket_answers_after_burst_only_change") >= 300,
 			"too few changes of the global burst alone (qps unchanged) followed by reports")
+		r.Require(r.Counter("sys_histories_on_the_api_backed_store") >= 100 && r.Counter("sys_schemas_with_limit_near_int32_range") >= 40, "too few histories on the API-backed store / with very large limits")
 		r.Require(r.Counter("sys_report_errors") == 0, "reports were refused by the server (harness/server set-up problem)")
 	})
 }
@@ -445,12 +448,21 @@ type history struct {
 	dead     bool // a violation was found: stop (later answers would only repeat it)
 	nontriv  bool
 
+	apiStore   bool     // the server keeps its conditions in the API-backed store
 	realIDs    bool     // identities as gateways really have them (ip:port, IPv6, dots, upper case, long, non-ASCII)
 	extras     []string // gateways that heartbeat to this server but never report on this upstream (they count as clients)
 	other      string   // a second upstream on the same server (own schemas), used by the same instances
 	deferApply bool     // changeLimit only prepares the change (reportConcurrently delivers it while reports are in flight)
 	pending    *proxyv1alpha1.UpstreamCluster
 	pendingOld *schema
+}
+
+// sc: scenario class; histories on the API-backed (write-through) store are a class of their own.
+func (h *history) sc(base string) string {
+	if h.apiStore {
+		return base + "/api-backed-store"
+	}
+	return base
 }
 
 func (h *history) logf(format string, a ...interface{}) {
@@ -595,11 +607,11 @@ func (h *history) reportOne(w *gw) {
 	}
 	h.r.Count("sys_reports_sequential", 1)
 	// an instance that claims a quota but is not on record (reclaimed while silent) is its own scenario class
-	h.scenario = "system"
+	h.scenario = h.sc("system")
 	if len(w.quota) > 0 && before.per[w.id] == nil && len(recs) > 0 && recs[0].Previous > 0 {
-		h.scenario = "system-return"
+		h.scenario = h.sc("system-return")
 	}
-	defer func() { h.scenario = "system" }()
+	defer func() { h.scenario = h.sc("system") }()
 	for _, rc := range recs {
 		s := h.schemaByName(rc.Schema)
 		h.logf("report %s %s: previous=%d used=%d level=%d%s -> quota=%d burst=%d   (sum on record %d -> %d, limit %d)",
@@ -635,7 +647,7 @@ func (h *history) consistency(after record, w *gw, rc reportRec, s *schema) {
 	}
 	if after.status[rc.Schema] != after.sum[rc.Schema] {
 		h.dead = true
-		sig := "C07/system/recorded-sum-wrong"
+		sig := "C07/" + h.sc("system") + "/recorded-sum-wrong"
 		if h.lapsing {
 			sig += "/instance-lapsed-not-yet-reclaimed"
 		}
@@ -776,7 +788,7 @@ func (h *history) reportConcurrently(ws []*gw, racingLimitChange ...bool) {
 		bound += joins1[s.Name]
 		if after.sum[s.Name] > bound {
 			h.dead = true
-			h.r.Violation(fmt.Sprintf("C07/system-concurrent/overcommit/%s", regime(before.sum[s.Name], L)),
+			h.r.Violation(fmt.Sprintf("C07/%s/overcommit/%s", h.sc("system-concurrent"), regime(before.sum[s.Name], L)),
 				fmt.Sprintf("schema %s (global limit %d): %d concurrent reports took the sum on record from %d to %d; no serial order of reports that each respect the limit can exceed %d (max(sum before, limit) + %d new instances answered the minimum 1)",
 					s.Name, L, len(ws), before.sum[s.Name], after.sum[s.Name], bound, joins1[s.Name]), h.witness(nil))
 		}
@@ -1082,7 +1094,14 @@ func system(r *vkit.R) {
 	}
 	r.Parallel(n, 16, func(i int, g *vkit.Rand) {
 		h := &history{r: r, g: g, upstream: fmt.Sprintf("up%d", i%7), scenario: "system", realIDs: i%4 == 1}
-		h.srv = bed.NewLimiterServer(bed.LimiterOptions{LeadAll: true, Shards: 1 + i%3})
+		o := bed.LimiterOptions{LeadAll: true, Shards: 1 + i%3}
+		if i%6 == 4 { // the API-backed store, write-through (every save goes to the API and a COPY of what the API returns is kept)
+			o.Store, o.GatewayClient = "k8s", gatewayfake.NewSimpleClientset()
+			h.apiStore = true
+			r.Count("sys_histories_on_the_api_backed_store", 1)
+		}
+		h.srv = bed.NewLimiterServer(o)
+		h.scenario = h.sc("system")
 		if h.realIDs {
 			r.Count("sys_histories_with_realistic_identities", 1)
 		}
@@ -1090,6 +1109,10 @@ func system(r *vkit.R) {
 		for k := 0; k < ns; k++ {
 			s := schema{Name: fmt.Sprintf("s%d", k), TB: g.Bool()}
 			s.Limit = g.PickI32([]int32{1, 3, 10, 12, 50, 100, 500, 1000, 1000, 3000, 10000, 100000})
+			if g.Chance(0.06) { // limits of the order of the int32 range
+				s.Limit = g.PickI32([]int32{1 << 29, 500000000, 1000000000}) // sums incl. a claimed quota stay below 2^31 (the allocated sums are int32)
+				r.Count("sys_schemas_with_limit_near_int32_range", 1)
+			}
 			if s.TB {
 				s.Burst = clamp32(int64(s.Limit) * int64(g.Range(1, 2)))
 				if g.Chance(0.25) {
